@@ -21,22 +21,79 @@ def load_contracts(prop):
     return table
 
 
-def run_property(prop, repo_root="/repo", timeout=10, verbose=False, scope=None):
+def _gen_unit(args):
+    """worker: the obligations of one (function, variant) of a property, frozen to SMT-LIB text"""
+    prop, repo_root, key, vi, scope = args
     import os
+    from .solve import FrozenOb
     os.environ["PYVC_REPO"] = repo_root
     repo = Repo(repo_root)
     table = load_contracts(prop)
-    reports = []
+    c = table[key]
+    if getattr(c, "is_lemma", False):
+        rep = verify_lemma(repo, table, c)
+    else:
+        if vi is not None:
+            c.variants = [c.variants[vi]]
+        rep = verify_function(repo, table, c, scope=scope)
+    rep.obligations = [FrozenOb(ob) for ob in rep.obligations]
+    rep.lemmas, rep.externs, rep.assumptions = set(rep.lemmas), set(rep.externs), set(rep.assumptions)
+    return key, vi, rep
+
+
+def _merge_units(key, parts):
+    """reports of the variants of one function (in variant order) -> one report, as the sequential driver builds it: the first variant
+    that cannot be explored makes the whole function unsupported"""
+    rep = parts[0]
+    for r in parts[1:]:
+        rep.paths += r.paths
+        rep.variants += r.variants
+        rep.seconds += r.seconds
+        for k, v in r.path_ends.items():
+            rep.path_ends[k] = rep.path_ends.get(k, 0) + v
+        rep.obligations = rep.obligations + r.obligations
+        rep.loops.update(r.loops)
+        rep.lemmas |= r.lemmas
+        rep.externs |= r.externs
+        rep.assumptions |= r.assumptions
+        if rep.unsupported is None and r.unsupported is not None:
+            rep.unsupported = r.unsupported
+    return rep
+
+
+def generate(prop, repo_root, scope=None, jobs=None):
+    """all obligations of a property, one worker process per (function, variant); PYVC_GEN_JOBS=1 keeps everything in this process"""
+    import os
+    import multiprocessing
+    table = load_contracts(prop)
+    units = []
     for key, c in table.items():
         if c.assumed:
             continue
-        if getattr(c, "is_lemma", False):
-            reports.append(verify_lemma(repo, table, c))
-            continue
-        rep = verify_function(repo, table, c, scope=scope)
+        if getattr(c, "is_lemma", False) or len(c.variants) <= 1:
+            units.append((prop, repo_root, key, None, scope))
+        else:
+            units.extend((prop, repo_root, key, vi, scope) for vi in range(len(c.variants)))
+    jobs = jobs or int(os.environ.get("PYVC_GEN_JOBS", "0") or 0) or min(16, os.cpu_count() or 4)
+    if jobs <= 1 or len(units) <= 1:
+        done = [_gen_unit(u) for u in units]
+    else:
+        ctx = multiprocessing.get_context("fork")
+        with ctx.Pool(min(jobs, len(units))) as pool:
+            done = pool.map(_gen_unit, units, chunksize=1)
+    by_key = {}
+    for key, vi, rep in done:
+        by_key.setdefault(key, []).append(rep)
+    return [_merge_units(key, by_key[key]) for key in table if key in by_key]
+
+
+def run_property(prop, repo_root="/repo", timeout=10, verbose=False, scope=None):
+    import os
+    os.environ["PYVC_REPO"] = repo_root
+    reports = generate(prop, repo_root, scope=scope)
+    for rep in reports:
         if rep.unsupported:
             rep.obligations = []      # partial exploration: nothing of it is reported as checked
-        reports.append(rep)
     allob = [ob for rep in reports for ob in rep.obligations]
     t0 = time.time()
     # canaries only have to *fail*: a short budget is enough (a timeout is a failure to verify)
